@@ -6530,6 +6530,14 @@ func (p *parser) parseClass(classKeyword logger.Range, name *ast.LocRef, classOp
 	// A scope is needed for private identifiers
 	scopeIndex := p.pushScopeForParsePass(js_ast.ScopeClassBody, bodyLoc)
 
+	// Class bodies are always strict mode code. Record that now instead of
+	// waiting for the visit pass since symbols are hoisted between the two
+	// passes, and function declarations in nested blocks are hoisted
+	// differently in strict mode.
+	if p.currentScope.StrictMode == js_ast.SloppyMode {
+		p.currentScope.StrictMode = js_ast.ImplicitStrictModeClass
+	}
+
 	opts := propertyOpts{
 		isClass:          true,
 		decoratorScope:   p.currentScope,
